@@ -18,6 +18,7 @@
 package getty
 
 import (
+	"context"
 	"fmt"
 	"sync"
 
@@ -89,6 +90,32 @@ func (client *GettyRemotingClient) SendAsyncResponse(msgID int32, msg interface{
 		Body:       msg,
 	}
 	return client.gettyRemoting.SendAsync(rpcMessage, nil, nil)
+}
+
+// askerKey is the context key under which OnMessage keeps the session a request of the coordinator came in on
+type askerKey struct{}
+
+// WithAsker notes in the context of a request from the coordinator the session it arrived on
+func WithAsker(ctx context.Context, session getty.Session) context.Context {
+	return context.WithValue(ctx, askerKey{}, session)
+}
+
+// SendAsyncResponseTo answers a request of the coordinator on the session the request arrived on (any node of a
+// coordinator cluster may drive phase two: the node that asked waits for the answer, not the one the xid names or
+// the load balancer would pick). Without such a session, or when it is gone, the load balancer chooses.
+func (client *GettyRemotingClient) SendAsyncResponseTo(ctx context.Context, msgID int32, msg interface{}) error {
+	rpcMessage := message.RpcMessage{
+		ID:         msgID,
+		Type:       message.GettyRequestTypeResponse,
+		Codec:      byte(codec.CodecTypeSeata),
+		Compressor: 0,
+		Body:       msg,
+	}
+	var session getty.Session
+	if asker, ok := ctx.Value(askerKey{}).(getty.Session); ok && asker != nil && !asker.IsClosed() {
+		session = asker
+	}
+	return client.gettyRemoting.SendAsync(rpcMessage, session, nil)
 }
 
 func (client *GettyRemotingClient) SendSyncRequest(msg interface{}) (interface{}, error) {
